@@ -10,21 +10,21 @@ Require Import PV.Num PV.Asympt PV.AsymptPhi.
 Import ListNotations.
 Local Open Scope R_scope.
 
-Definition ge (x : R) : R := exp (- (x * x)).
-Lemma ge_pos x : 0 < ge x. Proof. apply exp_pos. Qed.
-Lemma ge_continuous x : continuous ge x.
-Proof. apply (ex_derive_continuous ge x). unfold ge. auto_derive. trivial. Qed.
-Lemma ge_ex_RInt a b : ex_RInt ge a b.
-Proof. apply (ex_RInt_continuous ge). intros z _. apply ge_continuous. Qed.
-Definition gI (t : R) : R := RInt ge 0 t.
-Lemma gI_derive (t : R) : is_derive gI t (ge t).
-Proof. apply (is_derive_RInt ge gI 0 t).
-  - apply filter_forall. intro b. apply (RInt_correct ge 0 b). apply ge_ex_RInt.
-  - apply ge_continuous. Qed.
+Definition gexp (x : R) : R := exp (- (x * x)).
+Lemma gexp_pos x : 0 < gexp x. Proof. apply exp_pos. Qed.
+Lemma gexp_continuous x : continuous gexp x.
+Proof. apply (ex_derive_continuous gexp x). unfold gexp. auto_derive. trivial. Qed.
+Lemma gexp_ex_RInt a b : ex_RInt gexp a b.
+Proof. apply (ex_RInt_continuous gexp). intros z _. apply gexp_continuous. Qed.
+Definition gI (t : R) : R := RInt gexp 0 t.
+Lemma gI_derive (t : R) : is_derive gI t (gexp t).
+Proof. apply (is_derive_RInt gexp gI 0 t).
+  - apply filter_forall. intro b. apply (RInt_correct gexp 0 b). apply gexp_ex_RInt.
+  - apply gexp_continuous. Qed.
 Lemma gI_0 : gI 0 = 0.
 Proof. unfold gI. rewrite RInt_point. reflexivity. Qed.
 Lemma gI_nonneg t : 0 <= t -> 0 <= gI t.
-Proof. intro H. apply RInt_ge_0; [assumption|apply ge_ex_RInt|]. intros x _. left. apply ge_pos. Qed.
+Proof. intro H. apply RInt_ge_0; [assumption|apply gexp_ex_RInt|]. intros x _. left. apply gexp_pos. Qed.
 
 Definition gK (t x : R) : R := exp (- (t * t * (1 + x * x))) / (1 + x * x).
 Definition gdK (t x : R) : R := - (2 * t) * exp (- (t * t * (1 + x * x))).
@@ -64,36 +64,36 @@ Proof. unfold gG, gK. auto_derive.
   - apply RInt_ext. intros x _. apply gdK_alt. Qed.
 
 (* substitution x = t y *)
-Lemma gI_subst (t : R) : RInt (fun y => t * ge (t * y)) 0 1 = gI t.
-Proof. unfold gI. pose proof (RInt_comp_lin ge t 0 0 1) as H.
+Lemma gI_subst (t : R) : RInt (fun y => t * gexp (t * y)) 0 1 = gI t.
+Proof. unfold gI. pose proof (RInt_comp_lin gexp t 0 0 1) as H.
   replace (t * 0 + 0) with 0 in H by ring. replace (t * 1 + 0) with t in H by ring.
-  rewrite <- H by apply ge_ex_RInt. apply RInt_ext. intros y _. unfold scal; simpl; unfold mult; simpl.
+  rewrite <- H by apply gexp_ex_RInt. apply RInt_ext. intros y _. unfold scal; simpl; unfold mult; simpl.
   replace (t * y + 0) with (t * y) by ring. reflexivity. Qed.
 
-Lemma gsub_ex_RInt (t a b : R) : ex_RInt (fun y => t * ge (t * y)) a b.
-Proof. apply (ex_RInt_continuous (fun y => t * ge (t * y))). intros z _.
-  apply (ex_derive_continuous (fun y => t * ge (t * y)) z). unfold ge. auto_derive. trivial. Qed.
+Lemma gsub_ex_RInt (t a b : R) : ex_RInt (fun y => t * gexp (t * y)) a b.
+Proof. apply (ex_RInt_continuous (fun y => t * gexp (t * y))). intros z _.
+  apply (ex_derive_continuous (fun y => t * gexp (t * y)) z). unfold gexp. auto_derive. trivial. Qed.
 
-Lemma gdK_RInt (t : R) : RInt (gdK t) 0 1 = - (2 * ge t * gI t).
+Lemma gdK_RInt (t : R) : RInt (gdK t) 0 1 = - (2 * gexp t * gI t).
 Proof. rewrite <- gI_subst.
-  replace (- (2 * ge t * RInt (fun y => t * ge (t * y)) 0 1)) with (scal (- (2 * ge t)) (RInt (fun y => t * ge (t * y)) 0 1))
+  replace (- (2 * gexp t * RInt (fun y => t * gexp (t * y)) 0 1)) with (scal (- (2 * gexp t)) (RInt (fun y => t * gexp (t * y)) 0 1))
     by (unfold scal; simpl; unfold mult; simpl; ring).
-  rewrite <- (RInt_scal (fun y => t * ge (t * y)) 0 1 (- (2 * ge t)) (gsub_ex_RInt t 0 1)).
-  apply RInt_ext. intros y _. unfold scal; simpl; unfold mult; simpl. unfold gdK, ge.
+  rewrite <- (RInt_scal (fun y => t * gexp (t * y)) 0 1 (- (2 * gexp t)) (gsub_ex_RInt t 0 1)).
+  apply RInt_ext. intros y _. unfold scal; simpl; unfold mult; simpl. unfold gdK, gexp.
   replace (- (t * t * (1 + y * y))) with (- (t * t) + - (t * y * (t * y))) by ring. rewrite exp_plus. ring. Qed.
 
-Lemma Derive_gI : forall z, Derive (fun x : R => gI x) z = ge z.
+Lemma Derive_gI : forall z, Derive (fun x : R => gI x) z = gexp z.
 Proof. intro z. apply is_derive_unique. apply gI_derive. Qed.
 
 Definition gF (t : R) : R := gI t * gI t.
-Lemma gF_derive (t : R) : is_derive gF t (2 * ge t * gI t).
+Lemma gF_derive (t : R) : is_derive gF t (2 * gexp t * gI t).
 Proof. unfold gF. auto_derive.
   - split; [eexists; apply gI_derive|]. split; [eexists; apply gI_derive|trivial].
   - rewrite Derive_gI. ring. Qed.
 
 Definition gH (t : R) : R := gF t + gG t.
 Lemma gH_derive (t : R) : is_derive gH t 0.
-Proof. unfold gH. replace 0 with (2 * ge t * gI t + RInt (gdK t) 0 1) by (rewrite gdK_RInt; ring).
+Proof. unfold gH. replace 0 with (2 * gexp t * gI t + RInt (gdK t) 0 1) by (rewrite gdK_RInt; ring).
   apply (is_derive_plus gF gG t). apply gF_derive. apply gG_derive. Qed.
 
 Lemma gH_const (t : R) : gH t = gH 0.
@@ -116,11 +116,11 @@ Proof. unfold gG.
 Lemma gH_val (t : R) : gF t + gG t = PI / 4.
 Proof. change (gH t = PI / 4). rewrite gH_const. unfold gH, gF. rewrite gI_0, gG_0. ring. Qed.
 
-Lemma gG_bound (t : R) : 0 <= gG t <= ge t.
+Lemma gG_bound (t : R) : 0 <= gG t <= gexp t.
 Proof. unfold gG. split.
   - apply RInt_ge_0; [lra|apply gK_ex_RInt|]. intros x _. unfold gK. left. apply Rdiv_lt_0_compat; [apply exp_pos|apply sq1_pos].
-  - replace (ge t) with (RInt (fun _ => ge t) 0 1) by (rewrite RInt_const; unfold scal; simpl; unfold mult; simpl; ring).
-    apply RInt_le; [lra|apply gK_ex_RInt|apply ex_RInt_const|]. intros x _. unfold gK, ge.
+  - replace (gexp t) with (RInt (fun _ => gexp t) 0 1) by (rewrite RInt_const; unfold scal; simpl; unfold mult; simpl; ring).
+    apply RInt_le; [lra|apply gK_ex_RInt|apply ex_RInt_const|]. intros x _. unfold gK, gexp.
     pose proof (sq1_pos x) as Hx. pose proof (Rle_0_sqr x) as Hx2. unfold Rsqr in Hx2.
     apply Rle_trans with (exp (- (t * t * (1 + x * x)))).
     + apply Rle_div_l; [assumption|]. pose proof (exp_pos (- (t * t * (1 + x * x)))). nra.
@@ -135,7 +135,7 @@ Proof. unfold gc. pose proof (sqrt_lt_R0 PI PI_RGT_0). lra. Qed.
 Lemma gc_sqr : gc * gc = PI / 4.
 Proof. unfold gc. pose proof (sqrt_sqrt PI (Rlt_le _ _ PI_RGT_0)) as H. lra. Qed.
 
-Lemma gI_bounds (t : R) : 0 <= t -> gc - ge t / gc <= gI t <= gc.
+Lemma gI_bounds (t : R) : 0 <= t -> gc - gexp t / gc <= gI t <= gc.
 Proof. intro Ht. pose proof (gH_val t) as E. unfold gF in E. pose proof (gG_bound t) as [G0 G1].
   pose proof (gI_nonneg t Ht) as I0. pose proof gc_pos as C0. pose proof gc_sqr as C2.
   assert (P : (gc - gI t) * (gc + gI t) = gG t) by lra.
@@ -143,9 +143,9 @@ Proof. intro Ht. pose proof (gH_val t) as E. unfold gF in E. pose proof (gG_boun
   { destruct (Rle_dec (gI t) gc) as [H | H]; [assumption|]. exfalso.
     assert (0 < (gI t - gc) * (gc + gI t)) by (apply Rmult_lt_0_compat; lra). lra. }
   split; [|assumption].
-  assert (L : (gc - gI t) * gc <= ge t).
+  assert (L : (gc - gI t) * gc <= gexp t).
   { assert ((gc - gI t) * gc <= (gc - gI t) * (gc + gI t)) by (apply Rmult_le_compat_l; lra). lra. }
-  assert (gc - gI t <= ge t / gc); [|lra].
+  assert (gc - gI t <= gexp t / gc); [|lra].
   apply Rle_div_r; assumption. Qed.
 
 (* the half-line Gaussian integral:  int_0^t exp(-x^2) dx  ->  sqrt PI / 2 *)
@@ -157,13 +157,13 @@ Proof. apply is_lim_spec. intro eps. destruct eps as [eps Heps]. simpl.
   assert (H2 : / (eps * gc) < t) by (eapply Rle_lt_trans; [apply Rmax_r|exact Ht]).
   destruct (gI_bounds t ltac:(lra)) as [L U]. fold gc.
   assert (Hec : 0 < eps * gc) by (apply Rmult_lt_0_compat; assumption).
-  assert (Hg : ge t < eps * gc).
-  { unfold ge. rewrite exp_Ropp. pose proof (exp_ineq1_le (t * t)) as He.
+  assert (Hg : gexp t < eps * gc).
+  { unfold gexp. rewrite exp_Ropp. pose proof (exp_ineq1_le (t * t)) as He.
     assert (Ht2 : t < 1 + t * t) by nra.
     rewrite <- (Rinv_involutive (eps * gc)) by lra.
     apply Rinv_lt_contravar; [|lra].
     apply Rmult_lt_0_compat; [apply Rinv_0_lt_compat; assumption|apply exp_pos]. }
-  assert (ge t / gc < eps).
+  assert (gexp t / gc < eps).
   { apply Rlt_div_l; assumption. }
   rewrite Rabs_left1 by lra. lra. Qed.
 
@@ -171,29 +171,29 @@ Proof. apply is_lim_spec. intro eps. destruct eps as [eps Heps]. simpl.
 Lemma sqrt2_pos : 0 < sqrt 2. Proof. apply sqrt_lt_R0. lra. Qed.
 Lemma sqrtPI_pos : 0 < sqrt PI. Proof. apply sqrt_lt_R0. apply PI_RGT_0. Qed.
 
-Lemma nphi_alt (y : R) : nphi y = / sqrt PI * (/ sqrt 2 * ge (/ sqrt 2 * y + 0)).
-Proof. unfold nphi, ge. pose proof sqrt2_pos as H2. pose proof sqrtPI_pos as HP.
+Lemma nphi_alt (y : R) : nphi y = / sqrt PI * (/ sqrt 2 * gexp (/ sqrt 2 * y + 0)).
+Proof. unfold nphi, gexp. pose proof sqrt2_pos as H2. pose proof sqrtPI_pos as HP.
   rewrite sqrt_mult by (pose proof PI_RGT_0; lra).
   replace (- ((/ sqrt 2 * y + 0) * (/ sqrt 2 * y + 0))) with (- (y * y) / 2).
   - field. lra.
   - replace ((/ sqrt 2 * y + 0) * (/ sqrt 2 * y + 0)) with (y * y / (sqrt 2 * sqrt 2)) by (field; lra).
     rewrite sqrt_sqrt by lra. field. Qed.
 
-Lemma gsub2_ex_RInt (a b : R) : ex_RInt (fun y => / sqrt 2 * ge (/ sqrt 2 * y + 0)) a b.
-Proof. apply (ex_RInt_continuous (fun y => / sqrt 2 * ge (/ sqrt 2 * y + 0))). intros z _.
-  apply (ex_derive_continuous (fun y => / sqrt 2 * ge (/ sqrt 2 * y + 0)) z). unfold ge. auto_derive. trivial. Qed.
+Lemma gsub2_ex_RInt (a b : R) : ex_RInt (fun y => / sqrt 2 * gexp (/ sqrt 2 * y + 0)) a b.
+Proof. apply (ex_RInt_continuous (fun y => / sqrt 2 * gexp (/ sqrt 2 * y + 0))). intros z _.
+  apply (ex_derive_continuous (fun y => / sqrt 2 * gexp (/ sqrt 2 * y + 0)) z). unfold gexp. auto_derive. trivial. Qed.
 
 Lemma nphi_RInt (x : R) : RInt nphi 0 x = gI (x / sqrt 2) / sqrt PI.
 Proof. pose proof sqrt2_pos as H2. unfold gI.
-  pose proof (RInt_comp_lin ge (/ sqrt 2) 0 0 x) as H.
+  pose proof (RInt_comp_lin gexp (/ sqrt 2) 0 0 x) as H.
   replace (/ sqrt 2 * 0 + 0) with 0 in H by ring. replace (/ sqrt 2 * x + 0) with (x / sqrt 2) in H by (field; lra).
-  rewrite <- H by apply ge_ex_RInt.
-  pose proof (RInt_scal (fun y => / sqrt 2 * ge (/ sqrt 2 * y + 0)) 0 x (/ sqrt PI) (gsub2_ex_RInt 0 x)) as E.
+  rewrite <- H by apply gexp_ex_RInt.
+  pose proof (RInt_scal (fun y => / sqrt 2 * gexp (/ sqrt 2 * y + 0)) 0 x (/ sqrt PI) (gsub2_ex_RInt 0 x)) as E.
   etransitivity; [apply RInt_ext; intros y _; apply nphi_alt|].
   etransitivity; [exact E|]. unfold scal; simpl; unfold mult; simpl. unfold Rdiv. apply Rmult_comm. Qed.
 
-Lemma ge_scaled (x : R) : ge (x / sqrt 2) = exp (- (x * x) / 2).
-Proof. unfold ge. pose proof sqrt2_pos as H2. f_equal.
+Lemma gexp_scaled (x : R) : gexp (x / sqrt 2) = exp (- (x * x) / 2).
+Proof. unfold gexp. pose proof sqrt2_pos as H2. f_equal.
   replace (x / sqrt 2 * (x / sqrt 2)) with (x * x / (sqrt 2 * sqrt 2)) by (field; lra).
   rewrite sqrt_sqrt by lra. field. Qed.
 
@@ -201,7 +201,7 @@ Proof. unfold ge. pose proof sqrt2_pos as H2. f_equal.
 Theorem NPhi_upper_tail : forall x, 0 <= x -> 1 - 2 / PI * exp (- (x * x) / 2) <= NPhi x <= 1.
 Proof. intros x Hx. unfold NPhi. rewrite nphi_RInt. pose proof sqrt2_pos as H2. pose proof sqrtPI_pos as HP.
   assert (Hx2 : 0 <= x / sqrt 2) by (apply Rmult_le_pos; [assumption|left; apply Rinv_0_lt_compat; assumption]).
-  destruct (gI_bounds (x / sqrt 2) Hx2) as [L U]. rewrite ge_scaled in L. unfold gc in *.
+  destruct (gI_bounds (x / sqrt 2) Hx2) as [L U]. rewrite gexp_scaled in L. unfold gc in *.
   pose proof (sqrt_sqrt PI (Rlt_le _ _ PI_RGT_0)) as HPP.
   set (e := exp _) in *. set (I := gI _) in *. set (r := sqrt PI) in *.
   assert (E1 : r / 2 / r = 1 / 2) by (field; lra).
